@@ -217,24 +217,25 @@ Fixpoint rename (sg : name -> name) (sc : scope) (u : bool) (s : stmt) : stmt * 
 Definition expand_by_hand (sg : name -> name) (u : bool) (b : stmt) : stmt :=
   SBlock (fst (rename sg [[]] u b)).
 
-(* every macro boundary of a program expanded by hand, innermost first; the k-th boundary uses
-   sg x = x + K * k *)
-Fixpoint expand_all (K : N) (k : N) (u : bool) (s : stmt) : stmt * N :=
+(* every macro boundary of a program expanded by hand, innermost first.  n is a bound above every
+   name used so far: the boundary whose (already expanded) body uses names < n1 is renamed by
+   sg x = x + n1, after which every name is < n1 + n1 *)
+Fixpoint expand_all (n : N) (u : bool) (s : stmt) : stmt * N :=
   match s with
-  | SSkip | SLet _ _ | SAssign _ _ | SPrint _ => (s, k)
+  | SSkip | SLet _ _ | SAssign _ _ | SPrint _ => (s, n)
   | SSeq a b =>
-    let (a', k1) := expand_all K k u a in
-    let (b', k2) := expand_all K k1 u b in
-    (SSeq a' b', k2)
-  | SBlock b => let (b', k1) := expand_all K k u b in (SBlock b', k1)
+    let (a', n1) := expand_all n u a in
+    let (b', n2) := expand_all n1 u b in
+    (SSeq a' b', n2)
+  | SBlock b => let (b', n1) := expand_all n u b in (SBlock b', n1)
   | SIf c t e =>
-    let (t', k1) := expand_all K k u t in
-    let (e', k2) := expand_all K k1 u e in
-    (SIf c t' e', k2)
+    let (t', n1) := expand_all n u t in
+    let (e', n2) := expand_all n1 u e in
+    (SIf c t' e', n2)
   | SBoundary b =>
-    let (b', k1) := expand_all K k u b in
-    (expand_by_hand (fun x => (x + K * (k1 + 1))%N) u b', (k1 + 1)%N)
-  | SUnhyg b => let (b', k1) := expand_all K k true b in (SUnhyg b', k1)
+    let (b', n1) := expand_all n u b in
+    (expand_by_hand (fun x => (x + n1)%N) u b', (n1 + n1)%N)
+  | SUnhyg b => let (b', n1) := expand_all n true b in (SUnhyg b', n1)
   end.
 
 (* syntactic helpers used in the statements of the theorems *)
